@@ -106,6 +106,9 @@ def setFs (fs : FsState) : Prog Unit := .op (.setFs fs)
 def modifyFs (f : FsState → FsState) : Prog Unit := do
   let fs ← getFs
   setFs (f fs)
+/-- run `p` and return its error, if any, as a value (the caller re-raises it after its own clean-up) -/
+def attempt {α : Type} (p : Prog α) : Prog (Except Err α) :=
+  .tryCatch (.bind p (fun a => .pure (.ok a))) (fun e => .pure (.error e))
 /-- a destructor body run on its own (explicit `drop(x)` / end of statement for a temporary) -/
 def inDrop (c : Prog Unit) : Prog Unit := .finallyDrop (.pure ()) (fun _ => c)
 end Prog
@@ -226,7 +229,8 @@ def run {α : Type} : Prog α → Dev → Except Err α × Dev
   | .finallyDrop p c, d =>
     match run p d with
     | (.error e, d') =>
-      if e.isFatal then (.error e, d') else
+      -- a panic unwinds through the destructors; a hang never gets there
+      if e = .hang then (.error e, d') else
       match run (c none) { d' with dropDepth := d'.dropDepth + 1 } with
       | (.error e', d'') =>
         if e'.isFatal then (.error e', { d'' with dropDepth := d''.dropDepth - 1 })
